@@ -8,6 +8,8 @@
 (*   subst   replacing each single character of atom pos in turn             *)
 (*   comma   atom pos "," fragment             slash   atom pos "/" fragment *)
 (*   newline atom pos LF fragment (a line of its own)                        *)
+(*   mid     atom pos, fragment, atom pos again (the fragment in the middle  *)
+(*           of three components)                                            *)
 (* The verdict is computed from the STRUCTURE of the value, not by searching *)
 (* the string: every splice must be rejected, except a fragment made only of *)
 (* URL-safe characters placed inside a plain url(http...) atom (it stays a   *)
@@ -24,7 +26,7 @@ Fam == TLCGet(43)
 CONSTANTS MaxAtoms, Emit, PropLo, PropHi     \* properties PropLo..PropHi of the sorted list (to split the work)
 
 Props == DOMAIN Fam.props
-Modes == {"sep", "before", "after", "inside", "subst", "comma", "slash", "newline"}
+Modes == {"sep", "before", "after", "inside", "subst", "comma", "slash", "newline", "mid"}
 
 VARIABLES prop, base, frag, mode, pos
 vars == <<prop, base, frag, mode, pos>>
